@@ -31,6 +31,7 @@ type c17File struct {
 	Text string `json:"text"` // base64
 	Mode uint32 `json:"mode"` // permission bits; 0 => 0600
 	Dir  bool   `json:"dir"`
+	Link string `json:"link"` // symbolic link target ("@ROOT@" is replaced by the scratch root)
 }
 
 type c17Req struct {
@@ -39,6 +40,7 @@ type c17Req struct {
 	Files []c17File `json:"files"` // merge
 	Entry string    `json:"entry"` // merge: relative to scratch root
 	Stage string    `json:"stage"` // compile: routing|dns|both
+	Globs []string  `json:"globs"` // merge: include patterns as written, expanded with filepath.Glob as dfsMerge does
 }
 
 type c17KV struct {
@@ -77,6 +79,7 @@ type c17Res struct {
 	Entries  []string       `json:"entries,omitempty"` // merge: files read, relative to scratch root
 	Conf     map[string]any `json:"conf,omitempty"`    // build: projection of the typed configuration
 	Stage    string         `json:"stage,omitempty"`   // which stage produced err/panic
+	Globs    map[string][]string `json:"globs,omitempty"` // merge: pattern as written -> filepath.Glob result
 }
 
 func c17KVs(ps []*config_parser.Param) (out []c17KV, deep bool) {
@@ -343,6 +346,12 @@ func c17Merge(req *c17Req) (res c17Res) {
 		if err := os.MkdirAll(filepath.Dir(p), 0755); err != nil {
 			panic(err)
 		}
+		if f.Link != "" {
+			if err := os.Symlink(strings.ReplaceAll(f.Link, "@ROOT@", root), p); err != nil {
+				panic(err)
+			}
+			continue
+		}
 		mode := os.FileMode(f.Mode)
 		if mode == 0 {
 			mode = 0600
@@ -355,11 +364,28 @@ func c17Merge(req *c17Req) (res c17Res) {
 			panic(err)
 		}
 	}
+	entryDir := filepath.Dir(filepath.Join(root, req.Entry))
+	globs := map[string][]string{}
+	for _, w := range req.Globs {
+		pat := strings.ReplaceAll(w, "@ROOT@", root)
+		if !filepath.IsAbs(pat) {
+			pat = filepath.Join(entryDir, pat)
+		}
+		ms, gerr := filepath.Glob(pat)
+		if gerr != nil {
+			continue
+		}
+		out := make([]string, 0, len(ms))
+		for _, x := range ms {
+			out = append(out, strings.Replace(x, root, "@ROOT@", 1))
+		}
+		globs[w] = out
+	}
 	m := config.NewMerger(filepath.Join(root, req.Entry))
 	secs, entries, err := m.Merge()
 	if err != nil {
 		e := strings.ReplaceAll(err.Error(), root, "@ROOT@")
-		return c17Res{Err: e, Stage: "merge"}
+		return c17Res{Err: e, Stage: "merge", Globs: globs}
 	}
 	sort.Slice(secs, func(i, j int) bool { return secs[i].Name < secs[j].Name })
 	rel := make([]string, 0, len(entries))
@@ -373,7 +399,7 @@ func c17Merge(req *c17Req) (res c17Res) {
 	if err := json.Unmarshal([]byte(strings.ReplaceAll(string(raw), root, "@ROOT@")), &cs); err != nil {
 		panic(err)
 	}
-	return c17Res{Ok: true, Sections: cs, Entries: rel}
+	return c17Res{Ok: true, Sections: cs, Entries: rel, Globs: globs}
 }
 
 func TestVerifC17(t *testing.T) {
